@@ -13,7 +13,10 @@ use super::{
     EventId, OwnedEventId, OwnedRoomAliasId, OwnedRoomId, OwnedRoomOrAliasId, OwnedServerName,
     OwnedUserId, RoomAliasId, RoomId, RoomOrAliasId, UserId,
 };
-use crate::{percent_encode::PATH_PERCENT_ENCODE_SET, PrivOwnedStr, ServerName};
+use crate::{
+    percent_encode::{PATH_PERCENT_ENCODE_SET, QUERY_VALUE_PERCENT_ENCODE_SET},
+    PrivOwnedStr, ServerName,
+};
 
 const MATRIX_TO_BASE_URL: &str = "https://matrix.to/#/";
 const MATRIX_SCHEME: &str = "matrix";
@@ -342,7 +345,11 @@ impl fmt::Display for MatrixToUri {
         let mut first = true;
         for server_name in &self.via {
             f.write_str(if first { "?via=" } else { "&via=" })?;
-            f.write_str(server_name.as_str())?;
+            write!(
+                f,
+                "{}",
+                percent_encode(server_name.as_bytes(), QUERY_VALUE_PERCENT_ENCODE_SET)
+            )?;
 
             first = false;
         }
@@ -513,14 +520,22 @@ impl fmt::Display for MatrixUri {
         let mut first = true;
         for server_name in &self.via {
             f.write_str(if first { "?via=" } else { "&via=" })?;
-            f.write_str(server_name.as_str())?;
+            write!(
+                f,
+                "{}",
+                percent_encode(server_name.as_bytes(), QUERY_VALUE_PERCENT_ENCODE_SET)
+            )?;
 
             first = false;
         }
 
         if let Some(action) = self.action() {
             f.write_str(if first { "?action=" } else { "&action=" })?;
-            f.write_str(action.as_str())?;
+            write!(
+                f,
+                "{}",
+                percent_encode(action.as_str().as_bytes(), QUERY_VALUE_PERCENT_ENCODE_SET)
+            )?;
         }
 
         Ok(())
